@@ -1971,6 +1971,205 @@ theorem ifshortcut_needs_s1_empty :
     (execL [.ife (.var 0) [.print (.lit 7)] [] [(2, .lit 0, .lit 1)]] (fun _ => 1)).1 = [7] ∧
     (execL ([] : List LStmt) (update (fun _ => 1) 2 0)).1 = [] := by decide
 
+/-! ## 8b. LICM: hoisted statements first, then the rest of the body = the body -/
+
+def SStmt.reads : SStmt → List Nat
+  | .bin _ _ a b => a.vars ++ b.vars
+  | .print a => a.vars
+
+def SStmt.defn : SStmt → Option Nat
+  | .bin x _ _ _ => some x
+  | .print _ => none
+
+/-- SSA discipline of a loop body: every defined name is new, every read name is in scope -/
+def wfBody : List SStmt → List Nat → Bool
+  | [], _ => true
+  | .bin x _ a b :: r, sc => !sc.contains x && a.vars.all sc.contains && b.vars.all sc.contains && wfBody r (x :: sc)
+  | .print a :: r, sc => a.vars.all sc.contains && wfBody r sc
+
+def defsS : List SStmt → List Nat
+  | [] => []
+  | .bin x _ _ _ :: r => x :: defsS r
+  | .print _ :: r => defsS r
+
+theorem update_comm (ρ : Nat → Int) (x y : Nat) (v w : Int) (h : x ≠ y) :
+    update (update ρ x v) y w = update (update ρ y w) x v := by
+  funext z
+  simp only [update]
+  by_cases h1 : z = y
+  · have h2 : z ≠ x := fun e => h (e.symm.trans h1)
+    simp [h1]
+    intro e; exact absurd e.symm h
+  · by_cases h2 : z = x
+    · simp [h2]
+      intro e; exact absurd e h
+    · simp [h1, h2]
+
+/-- swapping a pure, trap-free statement `t` with the statement `s` in front of it -/
+theorem commute_one (y : Nat) (opy : Op) (c d : Operand) (s : SStmt) (k : List SStmt) (ρ : Nat → Int)
+    (htot : opy ≠ .div ∧ opy ≠ .mod)
+    (h1 : y ∉ s.reads) (h2 : s.defn ≠ some y)
+    (h3 : ∀ x, s.defn = some x → x ∉ c.vars ∧ x ∉ d.vars) :
+    execS (.bin y opy c d :: s :: k) ρ = execS (s :: .bin y opy c d :: k) ρ := by
+  obtain ⟨w, hw⟩ := evalTarget_total_of_not_div opy (c.eval ρ) (d.eval ρ) htot.1 htot.2
+  cases s with
+  | print a =>
+    simp only [SStmt.reads] at h1
+    simp only [execS, hw, eval_update_of_not_mem a ρ y w h1]
+  | bin x op a b =>
+    simp only [SStmt.reads, List.mem_append, not_or] at h1
+    have hxy : x ≠ y := fun e => h2 (by simp [SStmt.defn, e])
+    have h3' := h3 x rfl
+    simp only [execS, hw, eval_update_of_not_mem a ρ y w h1.1, eval_update_of_not_mem b ρ y w h1.2]
+    cases hv : evalTarget op (a.eval ρ) (b.eval ρ) with
+    | none => rfl
+    | some v =>
+      simp only [eval_update_of_not_mem c ρ x v h3'.1, eval_update_of_not_mem d ρ x v h3'.2, hw]
+      rw [update_comm ρ y x w v (fun e => hxy e.symm)]
+
+/-- a hoisted block: pure trap-free statements -/
+def PureBlock (h : List SStmt) : Prop := ∀ t, t ∈ h → ∃ y op c d, t = .bin y op c d ∧ op ≠ .div ∧ op ≠ .mod
+
+/-- moving `s` from behind a block of pure trap-free statements to its front -/
+theorem commute_block (h : List SStmt) (s : SStmt) (k : List SStmt) (ρ : Nat → Int) (hp : PureBlock h)
+    (h1 : ∀ y, y ∈ defsS h → y ∉ s.reads ∧ s.defn ≠ some y)
+    (h3 : ∀ x, s.defn = some x → ∀ t, t ∈ h → x ∉ t.reads) :
+    execS (h ++ s :: k) ρ = execS (s :: (h ++ k)) ρ := by
+  induction h generalizing ρ with
+  | nil => rfl
+  | cons t r ih =>
+    obtain ⟨y, op, c, d, rfl, htot⟩ := hp t (List.mem_cons_self ..)
+    have hy := h1 y (by simp [defsS])
+    have hr := h3
+    -- first run `t`, then use the induction hypothesis, then swap `t` and `s`
+    have step : execS (.bin y op c d :: (r ++ s :: k)) ρ = execS (.bin y op c d :: s :: (r ++ k)) ρ := by
+      obtain ⟨w, hw⟩ := evalTarget_total_of_not_div op (c.eval ρ) (d.eval ρ) htot.1 htot.2
+      simp only [execS, hw]
+      have := ih (update ρ y w) (fun t ht => hp t (List.mem_cons_of_mem _ ht))
+        (fun z hz => h1 z (by simp [defsS, hz])) (fun x hx t ht => h3 x hx t (List.mem_cons_of_mem _ ht))
+      simpa [execS] using this
+    simp only [List.cons_append]
+    rw [step]
+    exact commute_one y op c d s (r ++ k) ρ htot hy.1 hy.2
+      (fun x hx => by
+        have := h3 x hx (.bin y op c d) (by simp)
+        simp only [SStmt.reads, List.mem_append, not_or] at this
+        exact this)
+
+theorem licm_hoisted_facts (p : List SStmt) (variant : List Nat) :
+    PureBlock (licm p variant).1 ∧
+    (∀ t, t ∈ (licm p variant).1 → ∀ x, x ∈ variant → x ∉ t.reads) ∧
+    (∀ y, y ∈ defsS (licm p variant).1 → y ∈ defsS p) := by
+  induction p generalizing variant with
+  | nil => exact ⟨fun t h => by simp [licm] at h, fun t h => by simp [licm] at h, fun y h => by simp [licm, defsS] at h⟩
+  | cons st r ih =>
+    cases st with
+    | print a =>
+      simp only [licm]
+      obtain ⟨a1, a2, a3⟩ := ih variant
+      exact ⟨a1, a2, fun y hy => by simpa [defsS] using a3 y hy⟩
+    | bin x op a b =>
+      simp only [licm]
+      split
+      · rename_i hc
+        obtain ⟨a1, a2, a3⟩ := ih variant
+        refine ⟨?_, ?_, ?_⟩
+        · intro t ht
+          simp only [List.mem_cons] at ht
+          rcases ht with rfl | ht
+          · exact ⟨x, op, a, b, rfl, hc.1, hc.2.1⟩
+          · exact a1 t ht
+        · intro t ht z hz
+          simp only [List.mem_cons] at ht
+          rcases ht with rfl | ht
+          · simp only [SStmt.reads, List.mem_append, not_or]
+            have inv : ∀ (o : Operand), o.invariant variant = true → z ∉ o.vars := by
+              intro o ho hm
+              cases o with
+              | lit n => simp [Operand.vars] at hm
+              | var w =>
+                simp only [Operand.vars, List.mem_singleton] at hm
+                subst hm
+                simp [Operand.invariant] at ho
+                exact ho hz
+            exact ⟨inv a hc.2.2.1, inv b hc.2.2.2⟩
+          · exact a2 t ht z hz
+        · intro y hy
+          simp only [defsS, List.mem_cons] at hy ⊢
+          rcases hy with h | h
+          · exact Or.inl h
+          · exact Or.inr (a3 y h)
+      · obtain ⟨a1, a2, a3⟩ := ih (x :: variant)
+        exact ⟨a1, fun t ht z hz => a2 t ht z (List.mem_cons_of_mem _ hz), fun y hy => by
+          simp only [defsS, List.mem_cons]; exact Or.inr (a3 y hy)⟩
+
+theorem wfBody_defs_fresh (p : List SStmt) (sc : List Nat) (h : wfBody p sc = true) : ∀ y, y ∈ defsS p → y ∉ sc := by
+  induction p generalizing sc with
+  | nil => intro y hy; simp [defsS] at hy
+  | cons st r ih =>
+    intro y hy
+    cases st with
+    | print a => simp only [wfBody, Bool.and_eq_true] at h; exact ih sc h.2 y (by simpa [defsS] using hy)
+    | bin x op a b =>
+      simp only [wfBody, Bool.and_eq_true, Bool.not_eq_true'] at h
+      simp only [defsS, List.mem_cons] at hy
+      rcases hy with rfl | hy
+      · simpa using h.1.1.1
+      · intro hs; exact ih (x :: sc) h.2 y hy (List.mem_cons_of_mem _ hs)
+
+/-- FULL STRENGTH (`licm_permutation`): for every SSA loop body, every variant set and every
+environment, running the hoisted statements first and the remaining body afterwards gives exactly
+what the body gives: the same printed values, the same trap, the same final environment. -/
+theorem licm_permutation (p : List SStmt) (variant sc : List Nat) (ρ : Nat → Int) (hwf : wfBody p sc = true) :
+    execS ((licm p variant).1 ++ (licm p variant).2.1) ρ = execS p ρ := by
+  induction p generalizing variant sc ρ with
+  | nil => rfl
+  | cons st r ih =>
+    cases st with
+    | print a =>
+      simp only [wfBody, Bool.and_eq_true] at hwf
+      obtain ⟨hp, _, hd⟩ := licm_hoisted_facts r variant
+      have hfresh := wfBody_defs_fresh r sc hwf.2
+      have ha := vars_all hwf.1
+      simp only [licm]
+      rw [commute_block _ (.print a) _ ρ hp
+        (fun y hy => ⟨fun hm => hfresh y (hd y hy) (ha y hm), by simp [SStmt.defn]⟩)
+        (fun x hx => by simp [SStmt.defn] at hx)]
+      simp only [execS, ih variant sc ρ hwf.2]
+    | bin x op a b =>
+      simp only [wfBody, Bool.and_eq_true, Bool.not_eq_true'] at hwf
+      obtain ⟨⟨⟨hx, ha⟩, hb⟩, hr⟩ := hwf
+      have ha := vars_all ha
+      have hb := vars_all hb
+      simp only [licm]
+      split
+      · -- hoisted: it stays in front
+        simp only [List.cons_append, execS]
+        cases evalTarget op (a.eval ρ) (b.eval ρ) with
+        | none => rfl
+        | some v => exact ih variant (x :: sc) _ hr
+      · obtain ⟨hp, hrd, hd⟩ := licm_hoisted_facts r (x :: variant)
+        have hfresh := wfBody_defs_fresh r (x :: sc) hr
+        rw [commute_block _ (.bin x op a b) _ ρ hp
+          (fun y hy => by
+            have hy' := hfresh y (hd y hy)
+            simp only [List.mem_cons, not_or] at hy'
+            refine ⟨?_, by simp [SStmt.defn]; exact fun e => hy'.1 e.symm⟩
+            simp only [SStmt.reads, List.mem_append, not_or]
+            exact ⟨fun hm => hy'.2 (ha y hm), fun hm => hy'.2 (hb y hm)⟩)
+          (fun z hz t ht => by
+            simp only [SStmt.defn, Option.some.injEq] at hz
+            subst hz
+            exact hrd t ht _ (by simp))]
+        simp only [execS]
+        cases evalTarget op (a.eval ρ) (b.eval ρ) with
+        | none => rfl
+        | some v => exact ih (x :: variant) (x :: sc) _ hr
+
+example : wfBody [.bin 2 .mul (.var 1) (.lit 3), .print (.var 0), .bin 3 .add (.var 0) (.var 2), .bin 4 .xor (.var 1) (.var 2)] [0, 1] = true := by decide
+example : (licm [.bin 2 .mul (.var 1) (.lit 3), .print (.var 0), .bin 3 .add (.var 0) (.var 2), .bin 4 .xor (.var 1) (.var 2)] [0]).1
+    = [.bin 2 .mul (.var 1) (.lit 3), .bin 4 .xor (.var 1) (.var 2)] := by decide
+
 end SamVerif.Opt
 
 /-! ## 12. Temporary names across phases: the round driver keeps the heap's counter ahead of every
